@@ -810,6 +810,10 @@ impl<'c> Exec<'c> {
     }
 
     fn op_iterate<B: Brancher>(&mut self, b: &mut B, max: usize, interrupt: Option<u64>) -> V<()> {
+        // A complete enumeration of thousands of solutions costs seconds to minutes (every
+        // solution adds a blocking clause): beyond 2000 reference solutions the enumeration is cut
+        // off there (validity and distinctness are still judged, completeness is not).
+        let max = if self.refm.sols.len() > 2000 { max.min(2000) } else { max };
         // the step budget of an enumeration is per solution: each `next_solution` is a solve of
         // its own and has to make progress within the budget
         let mut clock = FaultClock::new(interrupt, self.case.budget.saturating_mul(4));
